@@ -157,7 +157,7 @@ impl SizeManifest {
             .entries
             .iter()
             .try_fold(0u64, |sum, e| sum.checked_add(e.esize))
-            .ok_or(SizeError::TotalSizeMismatch {
+            .ok_or_else(|| SizeError::TotalSizeMismatch {
                 expected: self.header.total_size(),
                 actual: u64::MAX,
             })?;
